@@ -54,7 +54,7 @@ def parse_result(line):
     d = {"raw": line}
     m = re.match(r"(OK|HANG|CRASH sig=\d+|EXIT code=-?\d+)", line)
     d["status"] = m.group(1) if m else "GARBLED"
-    for key in ("site", "n", "inj", "canary", "guard", "poison", "live", "tm", "un", "leaked", "cs", "sends", "res",
+    for key in ("site", "n", "inj", "canary", "guard", "poison", "live", "tm", "un", "fds", "leaked", "cs", "sends", "res",
                 "trace", "sites"):
         m = re.search(r" %s=(\S+)" % key, line)
         d[key] = m.group(1) if m else "?"
@@ -165,6 +165,9 @@ def judge(d, clean, verdict, own=None, rs=None):
         bad.append((verdict.split()[0].lower(), what))
     if d["guard"] not in ("0",) or d["poison"] not in ("0",):
         bad.append(("heap-corruption", "guard=%s poison=%s" % (d["guard"], d["poison"])))
+    if d.get("fds", "0") not in ("0", "?"):
+        bad.append(("fd-leak", "%s file descriptor(s) more open after the complete tear-down than before "
+                    "the scenario" % d["fds"]))
     if d["canary"] == "0":
         bad.append(("canary", "the exchange after the fault, with memory available, failed"))
     m = re.search(r"bad=([^;]+)", d["res"])
